@@ -20,6 +20,14 @@ THEOREMS = [
     "delete_leaves_no_trace",
     "child_data_changes_only_by_create_delete",
     "uniqueness_enforced_through_child",
+    "iterate_ids_cursor_is_list_cursor",
+    "iterate_valid_ids_cursor_is_list_cursor",
+    "cursor_rests_only_on_owned_ids",
+    "query_lists_are_owned_ids",
+    "query_with_cursor_only_owned_rows",
+    "roles_index_cursor_enumerates_holders",
+    "child_store_registration_order_irrelevant",
+    "delete_fans_out_to_every_child_store",
 ]
 
 
@@ -122,6 +130,11 @@ def diff_fields(a, b):
 
 def describe(case, impl, model, spec):
     d = {"case": case, "transactions": case.split(" ")[1].split(";") if " " in case else []}
+    if case.startswith("k "):
+        d["items"] = case.split(" ")[2].split(";")
+        ki, ks, km = [(x or "").split(" ;; ")[-1].split(" ")[1:] for x in (impl, spec, model)]
+        d["items_where_impl_differs_from_spec"] = [[ki[i], ks[i]] for i in range(min(len(ki), len(ks))) if ki[i] != ks[i]][:6]
+        d["items_where_impl_differs_from_model"] = [[ki[i], km[i]] for i in range(min(len(ki), len(km))) if ki[i] != km[i]][:6]
     ds = first_diff_tx(impl, spec)
     dm = first_diff_tx(impl, model)
     d["first_tx_where_impl_differs_from_spec"] = ds
@@ -133,7 +146,10 @@ def describe(case, impl, model, spec):
         d["impl_vs_model"] = diff_fields(si[dm] if dm < len(si) else "", sm[dm] if dm < len(sm) else "")
     d["legend"] = ("per transaction: <results> commit|abort E <store><c|u|d><id> (entity events delivered) F <store>.<id>=name/roles/child (FindById) Q <store>.<query>=ids "
                    "(QueryIds true, name=v1, anyOf(roles)=r1, true sort by name) I <store>.i / .v (IterateIds / IterateValidIds) "
-                   "X n.<v> r.<v> c.<v> (index reads) D bucket dump; stores 0=A 1=A1(plain child) 2=A2(extended child)")
+                   "X n.<v> r.<v> c.<v> (index reads) D bucket dump; stores 0=A 1=A1(plain child) 2=A2(extended child); "
+                   "k cases end with a segment K <item>=<observation>: <store>/i|v/<filter>/<steps> = Current() (- invalid) after opening the "
+                   "IterateIds / IterateValidIds cursor and after every step (n = Next, s<k> = Seek to id k, 0 before all, 9 after all); "
+                   "<store>/q/<filter>/<u|s>/<provider> = QueryWithCursorC (s: sort by name) over the listed existing ids (l…) or the roles index cursor (x<role>)")
     if impl is not None and len(impl) < 4000:
         d["impl"], d["model"], d["spec"] = impl, model, spec
     return d
@@ -145,6 +161,13 @@ RULE = ("histories of 4-12 transactions (1-3 operations each; first error aborts
         "nil/empty/4 values; 54 fixed route-pair histories + random ones (every history may, and 1 in 6 creates "
         "deliberately seek to, create through a child store over an existing parent-only id); after every transaction the entity events delivered to the three stores' listeners, FindById x 3 stores x 4 ids, 4 queries x 3 stores, "
         "IterateIds/IterateValidIds x 3 stores, 12 index reads and the full boltz.Traverse dump are compared; "
+        "cursor cases (k): every population of 4 (thorough: 5) ids over {absent, plain parent, A1 data, A2 data, both} + run-structured random "
+        "populations of 8 ids (runs of 0-4 ids without extension data between, before and after entities with it; 1 in 3 followed by 1-3 ordinary "
+        "transactions), then IterateIds / IterateValidIds cursors of all three stores driven by Next/Seek scripts (a sweep seeking to every "
+        "target incl. before-all / after-all / absent ids, each followed by two Next; random scripts of 3-12 steps; filters true, name=v1, "
+        "anyOf(roles)=r1) and QueryWithCursorC (unsorted / sort by name) over listed ids or the roles index cursor, every observation compared; "
+        "g cases: the same schema with the extended child store's strategy registered before the plain child store's (the 54 fixed histories + "
+        "random histories), all observations as for h; "
         "non-trivial = operations through the parent store and through a child store both committed; distinct = history text")
 
 
@@ -158,6 +181,8 @@ def histogram(lines, impl):
         txs = parse_case(c)
         segs = segments(a)
         inc("histories")
+        if c.startswith("g "):
+            inc("histories-with-A2-registered-first")
         for t, ops in enumerate(txs):
             inc("transactions")
             if t < len(segs):
@@ -169,6 +194,16 @@ def histogram(lines, impl):
                         inc("result:" + (r if not r.startswith("other") else "other"))
         if first_finding_tx(c, a) is not None:
             inc("histories-with-child-create-over-existing-parent")
+        if c.startswith("k "):
+            inc("cursor-cases")
+            for it in c.split(" ")[2].split(";"):
+                p = it.split("/")
+                if p[1] == "q":
+                    inc("item:QueryWithCursorC:store%s:%s" % (p[0], "index-cursor" if p[4].startswith("x") else "list"))
+                else:
+                    inc("item:%s:store%s" % ("IterateIds" if p[1] == "i" else "IterateValidIds", p[0]))
+                    for st in (p[3].split(".") if p[3] != "-" else []):
+                        inc("step:" + ("Next" if st == "n" else "Seek"))
     return h
 
 
@@ -190,38 +225,77 @@ def fails(ctx, case, unknown_only=True):
     return (case, a, m, s)
 
 
+def split_case(case):
+    """(kind, [tx text], [item text])   kind h: no items; kind k: cursor scripts / provider queries"""
+    f = case.split(" ")
+    return f[0], f[1].split(";"), (f[2].split(";") if len(f) > 2 else [])
+
+
+def join_case(kind, txs, items):
+    return kind + " " + ";".join(txs) + ((" " + ";".join(items)) if kind == "k" else "")
+
+
 def shrink(ctx, bad, want_spec_diff):
-    """delta-debug the transaction list, then the operations inside transactions"""
+    """delta-debug the items of a `k` case (and the steps of their scripts), then the transaction
+    list, then the operations inside transactions"""
     best = bad
-    budget = 60
+    budget = [90]
 
     def ok(res):
         return res is not None and ((res[1] != res[3]) if want_spec_diff else (res[1] != res[2]))
 
+    def attempt(cand):
+        nonlocal best
+        if budget[0] <= 0:
+            return False
+        budget[0] -= 1
+        res = fails(ctx, cand)
+        if ok(res):
+            best = res
+            return True
+        return False
+
+    kind, txs, items = split_case(best[0])
+    if kind == "k":
+        # keep one differing item if a single one suffices
+        a_items = (best[1] or "").split(" ;; ")[-1].split(" ")[1:]
+        ref = ((best[3] if want_spec_diff else best[2]) or "").split(" ;; ")[-1].split(" ")[1:]
+        differing = [i for i in range(min(len(items), len(a_items), len(ref))) if a_items[i] != ref[i]]
+        if differing and len(items) > 1 and attempt(join_case(kind, txs, [items[differing[0]]])):
+            items = [items[differing[0]]]
+        else:
+            for i in range(len(items) - 1, -1, -1):
+                if len(items) > 1 and attempt(join_case(kind, txs, items[:i] + items[i + 1:])):
+                    items = items[:i] + items[i + 1:]
+        # shorten the scripts
+        for i in range(len(items)):
+            p = items[i].split("/")
+            if len(p) == 4 and p[1] in ("i", "v") and p[3] != "-":
+                steps = p[3].split(".")
+                j = len(steps) - 1
+                while j >= 0 and len(steps) > 1:
+                    cand_steps = steps[:j] + steps[j + 1:]
+                    cand_items = items[:i] + ["/".join(p[:3] + [".".join(cand_steps)])] + items[i + 1:]
+                    if attempt(join_case(kind, txs, cand_items)):
+                        steps, items = cand_steps, cand_items
+                    j -= 1
     changed = True
-    while changed and budget > 0:
+    while changed and budget[0] > 0:
         changed = False
-        txs = best[0].split(" ")[1].split(";")
         for i in range(len(txs) - 1, -1, -1):
-            if len(txs) <= 1 or budget <= 0:
+            if len(txs) <= 1 or budget[0] <= 0:
                 break
-            cand = "h " + ";".join(txs[:i] + txs[i + 1:])
-            budget -= 1
-            res = fails(ctx, cand)
-            if ok(res):
-                best, changed = res, True
+            if attempt(join_case(kind, txs[:i] + txs[i + 1:], items)):
+                changed = True
                 txs = txs[:i] + txs[i + 1:]
         for i in range(len(txs)):
             ops = txs[i].split(",")
             for j in range(len(ops) - 1, -1, -1):
-                if len(ops) <= 1 or budget <= 0:
+                if len(ops) <= 1 or budget[0] <= 0:
                     break
                 cand_tx = ops[:j] + ops[j + 1:]
-                cand = "h " + ";".join(txs[:i] + [",".join(cand_tx)] + txs[i + 1:])
-                budget -= 1
-                res = fails(ctx, cand)
-                if ok(res):
-                    best, changed = res, True
+                if attempt(join_case(kind, txs[:i] + [",".join(cand_tx)] + txs[i + 1:], items)):
+                    changed = True
                     ops = cand_tx
                     txs[i] = ",".join(ops)
     return best
